@@ -1,4 +1,5 @@
 import GtirbVerif.Lemmas.IRSyms
+import GtirbVerif.Lemmas.IRSymClosed
 
 /-!
 # C02 — symbols keep designating the same place in the edited listing
@@ -14,6 +15,15 @@ import GtirbVerif.Lemmas.IRSyms
   retargeting block2's references with a single flag — move no symbol; `remove_block` sends the
   symbols exactly where the documentation says and leaves none behind on a removed block.
   The place of a symbol is `IR.symPos` = (byte interval, offset), end of the block for `at_end`.
+
+* **over whole rewrites** (Lemmas/IRSymClosed.lean): *no symbol is ever left referring to a block
+  that is no longer part of the module* — for `insert` (patches with any number of extra
+  sections), `delete`, the loop of `_apply_modifications` over the requests of a block and
+  `apply()`'s loop over all blocks.  The invariant `SInv` has two halves: every symbol that
+  refers to a block refers to one attached to a byte interval of the module, and the block
+  ordering (which `remove_block` asks for the neighbour that inherits the symbols) lists attached
+  blocks of the right section, each once per chain.  Premises: the objects of every patch are new
+  when it is inserted (`PatchOk`; evaluated on the recorded states of every run, as is `SInv`).
 
 The premise of `join_moves_no_symbol` (no end-of-block symbol on block1 when block2 has bytes)
 is not checked by `are_joinable`; `split_leaves_no_end_symbol_on_head` shows that the callers in
@@ -85,6 +95,31 @@ theorem remove_leaves_no_symbol_behind {ir ir' : IR} {b : Nat} {px : Bool} {blk 
     ∀ y ∈ ir'.syms, y.ref ≠ .block b :=
   removeBlock_no_dangling h hb ht
 
+/-- **over a whole `apply()`**: whatever requests the blocks get, when the loop over all blocks is
+through every symbol that refers to a block refers to a block of the module — one that is attached
+to a byte interval of one of its sections (and the invariant that makes this so still holds) -/
+theorem no_symbol_is_left_on_a_block_that_left_the_module (rs : List BlockMods) (ir ir' : IR)
+    (h : ir.applyAll rs = .ok ir') (hI : IdsBelow ir) (hok : ∀ r ∈ rs, ReqOk ir r) (hnd : (rs.map (ivOf ir)).Nodup)
+    (hnew : NewPatchesAll ir rs) (hinv : SInv ir) :
+    SInv ir' ∧ ∀ y ∈ ir'.syms, ∀ b, y.ref = .block b →
+      ∃ blk s, ir'.block? b = some blk ∧ blk.bi ≠ none ∧ ir'.sectionOf blk = some s := by
+  obtain ⟨s1, o1⟩ := applyAll_sinv rs ir ir' h hI hok hnd hnew hinv.1 hinv.2
+  refine ⟨⟨s1, o1⟩, ?_⟩
+  intro y hy b hb
+  rcases s1 y hy b hb with ⟨s, blk, hblk, hs⟩ | hp
+  · exact ⟨blk, s, hblk, sectionOf_some_bi hs, hs⟩
+  · cases hp
+
+/-- … and after each single `insert` -/
+theorem insert_leaves_no_symbol_behind {ir ir' : IR} {b off repl last : Nat} {p : Patch}
+    (h : ir.insert b off repl p = .ok (ir', last)) (hinv : SInv ir) (hI : IdsBelow ir) (hp : PatchOk ir p) : SInv ir' :=
+  insert_sinv h hinv.1 hinv.2 hI hp
+
+/-- … and each single `delete` -/
+theorem delete_leaves_no_symbol_behind {ir ir' : IR} {b off len : Nat} {px : Bool} {r : Option Nat}
+    (h : ir.delete b off len px = .ok (ir', r)) (hinv : SInv ir) (hI : IdsBelow ir) : SInv ir' :=
+  delete_sinv h hinv.1 hinv.2 hI
+
 /-! ### non-vacuity: a block with a start and an end symbol, split in the middle -/
 
 private def demo : IR :=
@@ -99,5 +134,13 @@ example : (demo.syms.map demo.symPos) = [some (1, 0), some (1, 4)] := by decide
 example : (match demo.splitBlock 2 1 with
     | .ok (ir', nb, _) => (ir'.syms.map ir'.symPos, nb)
     | .error _ => ([], 0)) = ([some (1, 0), some (1, 4)], 10) := by decide
+
+-- the invariant of the whole-rewrite theorems holds of the example module (executable form)
+example : demo.symsOkB = true ∧ demo.ordOkB = true := by decide
+example : SInv demo := sinvB_sound (by decide) (by decide)
+-- … and still after a deletion in the middle of the block
+example : (match demo.delete 2 1 2 false with
+    | .ok (ir', _) => ir'.symsOkB && ir'.ordOkB
+    | .error _ => false) = true := by decide
 
 end GtirbVerif.Props.C02
